@@ -316,6 +316,28 @@ def build(repo=None):
         return None
 
     eng.method_models["append"] = m_append
+
+    def m_listcomp(e, s, node):
+        # [_make_argpiece(p, ...) for p in <group>] == map(argpiece, group)
+        g = node.generators[0] if len(node.generators) == 1 else None
+        ok = (g is not None and not g.ifs and isinstance(g.target, ast.Name) and isinstance(node.elt, ast.Call) and getattr(node.elt.func, "id", "") == "_make_argpiece"
+              and node.elt.args and ast.unparse(node.elt.args[0]) == g.target.id and isinstance(g.iter, ast.Name))
+        it = s.env.get(g.iter.id) if ok else None
+        if not (ok and isinstance(it, Z) and it.kind == "seq:u"):
+            raise Unsupported("a comprehension in the pieces region that is not [_make_argpiece(p, ...) for p in <group>]")
+        return [(s, Z("seq:str", MapPiece(it.t)))]
+
+    def m_iadd(e, s, lhs, rhs, node):
+        # argstr_pieces += <list of pieces>
+        if isinstance(lhs, Ref) and isinstance(s.get(lhs), Obj) and s.get(lhs).cls == "seqlist" and isinstance(rhs, Z) and rhs.kind == "seq:str":
+            s1 = s.clone()
+            cur = s1.get(lhs).attrs["seq"].t
+            s1.put(lhs, Obj("seqlist", {"seq": Z("seq:str", z3.Concat(cur, rhs.t))}, tag="argstr_pieces"))
+            return [(s1, NORMAL)]
+        return None
+
+    eng.method_models["__listcomp__"] = m_listcomp
+    eng.method_models["__iadd__"] = m_iadd
     eng.globals["_make_argpiece"] = Fn("_make_argpiece", model=lambda e, s, a, kw, nd: [(s, Z("str", Piece(e.as_u(s, a[0]))))])
 
     def unpack_hook(e, s, elts, v):
